@@ -40,27 +40,24 @@ def _parallel(jobs, limit):
   return [v for _, v in out]
 
 
-def _mc(name):
+def _mx(name):
   def job():
-    # no -coverage: it switches off TLC's memoisation of LET definitions and the
-    # recursive assembly runs out of memory; the vacuity guard is computed from
-    # the exported behaviours instead (see _vacuity)
-    r = tlc.run("packet", "MCPktWire", "MC_%s.cfg" % name, coverage=False, tag="C14", timeout=1500, workers=6)
+    # One TLC run per corpus: every invariant / action property of PktWire.tla is
+    # checked on every reachable state and, in the same run, INVARIANT Export
+    # prints each completed behaviour (PrintT writes whole lines, so several
+    # workers are fine).  No -coverage: it switches off TLC's memoisation of LET
+    # definitions and the recursive assembly runs out of memory; the vacuity
+    # guard is computed from the exported behaviours instead (see _vacuity).
+    r = tlc.run("packet", "PktWireMC", "PktWire_MX_%s.cfg" % name, coverage=False, tag="C14", timeout=2400, workers=5)
     if r.violated:
-      raise tlc.TLCError("PktWire.tla violates its own property %s (MC_%s.cfg):\n%s"
+      raise tlc.TLCError("PktWire.tla violates its own property %s (PktWire_MX_%s.cfg):\n%s"
                          % (r.violated, name, r.error_trace))
-    return r
-  return job
-
-
-def _ex(name):
-  def job():
-    r = tlc.run("packet", "MCPktWire", "EX_%s.cfg" % name, workers=1, coverage=False, tag="C14", timeout=1500)
-    if r.violated:
-      raise tlc.TLCError("export run EX_%s.cfg reported %s:\n%s" % (name, r.violated, r.error_trace))
     behs = r.tagged("H")
     if not behs:
-      raise tlc.TLCError("no behaviours exported by EX_%s.cfg" % name)
+      raise tlc.TLCError("no behaviours exported by PktWire_MX_%s.cfg" % name)
+    # TLC's workers print in no particular order: make the replay order (and with it the
+    # choice of samples / replay files) independent of scheduling
+    behs.sort(key=lambda b: (core.canon(b[0]["args"]["d"]), core.canon([[st["a"], st["exp"]] for st in b[:3]])))
     return r, behs
   return job
 
@@ -101,9 +98,9 @@ def _vacuity(behs, mc, name):
   # (Edit needs an opaque payload: required over all corpora together, see _run)
   tlc.require_coverage(fake, [a for a in ACTIONS if a != "Edit"], "PktWire %s" % name)
   cases = len({core.canon(b[0]["args"]["d"]) for b in behs})
-  # init + built + packed + parsed + done per case, all reached in the model-checking run
+  # init + built + packed + parsed + done per case (and the Feed path), all reached
   if mc.distinct < 5 * cases:
-    raise tlc.TLCError("MC_%s.cfg explored %d states for %d cases: invariants not evaluated on every phase"
+    raise tlc.TLCError("PktWire_MX_%s.cfg explored %d states for %d cases: invariants not evaluated on every phase"
                        % (name, mc.distinct, cases))
   return cnt, cases
 
@@ -145,10 +142,10 @@ def _run(ctx, quick):
   lay = W.load_layouts()
   names = CORPORA[ctx.tier]
   tm["layout_tables"] = round(time.time() - t0, 1)
-  res = _parallel([_mc(n) for n in names] + [_ex(n) for n in names], 8)
+  res = _parallel([_mx(n) for n in names], 5)
   tm["tlc_model_check_and_export"] = round(time.time() - t0, 1)
-  mcs = dict(zip(names, res[:len(names)]))
-  exs = dict(zip(names, res[len(names):]))
+  exs = dict(zip(names, res))
+  mcs = {n: exs[n][0] for n in names}
   templates = {}
   agg = collections.Counter()
   for n in names:
@@ -175,7 +172,7 @@ def _run(ctx, quick):
   ctx.notes["mirror_cross_check"] = "harness/c14_wire.py == EncStack on every exported case"
   # code -> spec: random values on every shape, TLC decides
   tpl = [templates[k][1] for k in sorted(templates)]
-  ntr = 300 if quick else 6000
+  ntr = 300 if quick else 10000
   items = [(ctx.seed * 1000003 + i, tpl[i % len(tpl)], i % 3 == 2) for i in range(ntr)]
   traces = core.run_driver("props.C14:drive", items)
   tm["random_driver"] = round(time.time() - t0, 1)
@@ -197,10 +194,10 @@ def _corrupt(traces):
 def _validate(ctx, traces, lay):
   bad = _corrupt(traces)
   slim = [[{k: e[k] for k in ("a", "args", "obs", "wf")} for e in t] for t in traces + [bad]]
-  r, rej = tracecheck.validate("packet", "TracePktWire", "Trace.cfg", slim, tag="C14")
-  ctx.add_model("TracePktWire (validation of %d library traces, invariants on every recorded packet)" % len(traces), r)
+  r, rej = tracecheck.validate("packet", "PktWireTrace", "PktWire_Trace.cfg", slim, tag="C14")
+  ctx.add_model("PktWireTrace (validation of %d library traces, invariants on every recorded packet)" % len(traces), r)
   if len(traces) not in [t for t, _ in rej]:
-    raise tlc.TLCError("negative control (one corrupted byte) was accepted by TracePktWire")
+    raise tlc.TLCError("negative control (one corrupted byte) was accepted by PktWireTrace")
   from harness.adapters_c14 import Adapter
   ad = Adapter(layouts=lay)
   nrej = 0
